@@ -28,7 +28,23 @@ def objs_segment(inp):
 
 def objs_melody(inp):
     m = T.TASKS["melody"]
-    return {"rt": T.farr(inp["ref"][0]), "rf": m._hz(inp["ref"][1]), "et": T.farr(inp["est"][0]), "ef": m._hz(inp["est"][1])}
+    o = {"rt": T.farr(inp["ref"][0]), "rf": m._hz(inp["ref"][1]), "et": T.farr(inp["est"][0]), "ef": m._hz(inp["est"][1])}
+    if inp.get("use_voicing"):
+        # continuous estimated voicing / reference reward (valid: every value in [0, 1], one per frame)
+        if inp.get("est_voicing") is not None:
+            o["ev"] = T.farr(inp["est_voicing"])
+        if inp.get("reward") is not None:
+            o["rr"] = T.farr(inp["reward"])
+    return o
+
+
+def _mel_kw(o, kw):
+    kw = dict(kw)
+    if o.get("ev") is not None:
+        kw.setdefault("est_voicing", o["ev"])
+    if o.get("rr") is not None:
+        kw.setdefault("ref_reward", o["rr"])
+    return kw
 
 
 def objs_multipitch(inp):
@@ -119,7 +135,7 @@ ENTRIES = {
                 "mutual_information": _seg4(me.segment.mutual_information), "nce": _seg4(me.segment.nce),
                 "vmeasure": _seg4(me.segment.vmeasure)},
     "chord": {"evaluate": _seg4(me.chord.evaluate)},
-    "melody": {"evaluate": lambda o, **kw: me.melody.evaluate(o["rt"], o["rf"], o["et"], o["ef"], **kw),
+    "melody": {"evaluate": lambda o, **kw: me.melody.evaluate(o["rt"], o["rf"], o["et"], o["ef"], **_mel_kw(o, kw)),
                "voicing_measures": _mel_frames(me.melody.voicing_measures, False),
                "raw_pitch_accuracy": _mel_frames(me.melody.raw_pitch_accuracy),
                "raw_chroma_accuracy": _mel_frames(me.melody.raw_chroma_accuracy),
